@@ -1495,6 +1495,13 @@ def main():
     os.makedirs(scratch, exist_ok=True)
     FS.add_root(os.path.join(SRC, "multidecoder", "keywords"), "shipped")
     FS.add_root(scratch, "scratch")
+    rt = scn["worlds"][widx].get("runtime") or {}
+    if rt.get("gc") == "off":
+        gc.disable()
+    elif rt.get("gc") == "aggressive":
+        gc.set_threshold(1, 1, 1)
+    if rt.get("recursion_limit"):
+        sys.setrecursionlimit(int(rt["recursion_limit"]))
     kernel.install()
     KERNEL.adopt_main()
     FS.install()
